@@ -7,6 +7,9 @@ use std::time::{Duration, Instant};
 use tiny_http_verif_rt::sync::{Arc, Condvar, Mutex};
 #[cfg(tiny_http_verif)]
 use tiny_http_verif_rt::time::{Duration, Instant};
+#[cfg(tiny_http_verif)]
+#[allow(unused_imports)]
+use tiny_http_verif_rt::sync::{atomic::*, *};
 
 enum Control<T> {
     Elem(T),
